@@ -247,11 +247,13 @@ package stick
 //@   ensures name: s.name == old(s.name) && s.current == old(s.current) && s.env == old(s.env)
 //@   ensures blocks: len(s.blocks) >= old(len(s.blocks))
 //@   ensures others: forall p trig :: allocated(p) && p != old(s.scope) ==> fld("stick.scopeStack", "scopes", p) == old(fld("stick.scopeStack", "scopes", p))
+// C08/C17: only the current writer receives output
+//@   ensures wframe: forall w trig :: allocated(w) && w != ref(old(s.out)) ==> rbuflen(w) == old(rbuflen(w)) && rbufdata(w) == old(rbufdata(w))
 // A11 (trusted, not proved): states are separate — executing on one state does not modify the list of
 // scope maps of another state's scope stack (ownership of backing arrays is not modelled).
 //@   trusts sep: forall p, i :: allocated(p) && p != old(s.scope) && 0 <= i && i < old(len(fld("stick.scopeStack", "scopes", p))) ==> fld("stick.scopeStack", "scopes", p)[i] == old(fld("stick.scopeStack", "scopes", p)[i])
-//@   loop 1 invariant frame: xinv(s) && s.scope == old(s.scope) && len(s.scope.scopes) == old(len(s.scope.scopes)) && (forall i trig :: 0 <= i && i < len(s.scope.scopes) ==> s.scope.scopes[i] == old(s.scope.scopes[i])) && s.name == old(s.name) && s.current == old(s.current) && s.env == old(s.env) && len(s.blocks) >= old(len(s.blocks)) && (forall p trig :: allocated(p) && p != old(s.scope) ==> fld("stick.scopeStack", "scopes", p) == old(fld("stick.scopeStack", "scopes", p))) && s.out == old(s.out) && (wfail() ==> old(wfail())) && (wafterfail() ==> old(wafterfail()) || old(wfail()))
-//@   loop 2 invariant frame: xinv(s) && s.scope == old(s.scope) && len(s.scope.scopes) == old(len(s.scope.scopes)) && (forall i trig :: 0 <= i && i < len(s.scope.scopes) ==> s.scope.scopes[i] == old(s.scope.scopes[i])) && s.name == old(s.name) && s.current == old(s.current) && s.env == old(s.env) && len(s.blocks) >= old(len(s.blocks)) && (forall p trig :: allocated(p) && p != old(s.scope) ==> fld("stick.scopeStack", "scopes", p) == old(fld("stick.scopeStack", "scopes", p))) && s.out == old(s.out) && (wfail() ==> old(wfail())) && (wafterfail() ==> old(wafterfail()) || old(wfail()))
+//@   loop 1 invariant frame: xinv(s) && s.scope == old(s.scope) && len(s.scope.scopes) == old(len(s.scope.scopes)) && (forall i trig :: 0 <= i && i < len(s.scope.scopes) ==> s.scope.scopes[i] == old(s.scope.scopes[i])) && s.name == old(s.name) && s.current == old(s.current) && s.env == old(s.env) && len(s.blocks) >= old(len(s.blocks)) && (forall p trig :: allocated(p) && p != old(s.scope) ==> fld("stick.scopeStack", "scopes", p) == old(fld("stick.scopeStack", "scopes", p))) && s.out == old(s.out) && (forall w trig :: allocated(w) && w != ref(old(s.out)) ==> rbuflen(w) == old(rbuflen(w)) && rbufdata(w) == old(rbufdata(w))) && (wfail() ==> old(wfail())) && (wafterfail() ==> old(wafterfail()) || old(wfail()))
+//@   loop 2 invariant frame: xinv(s) && s.scope == old(s.scope) && len(s.scope.scopes) == old(len(s.scope.scopes)) && (forall i trig :: 0 <= i && i < len(s.scope.scopes) ==> s.scope.scopes[i] == old(s.scope.scopes[i])) && s.name == old(s.name) && s.current == old(s.current) && s.env == old(s.env) && len(s.blocks) >= old(len(s.blocks)) && (forall p trig :: allocated(p) && p != old(s.scope) ==> fld("stick.scopeStack", "scopes", p) == old(fld("stick.scopeStack", "scopes", p))) && s.out == old(s.out) && (forall w trig :: allocated(w) && w != ref(old(s.out)) ==> rbuflen(w) == old(rbuflen(w)) && rbufdata(w) == old(rbufdata(w))) && (wfail() ==> old(wfail())) && (wafterfail() ==> old(wafterfail()) || old(wfail()))
 
 //@ func stick.(*state).walkChild
 //@   propagates
@@ -264,10 +266,12 @@ package stick
 //@   ensures name: s.name == old(s.name) && s.current == old(s.current) && s.env == old(s.env)
 //@   ensures blocks: len(s.blocks) >= old(len(s.blocks))
 //@   ensures others: forall p trig :: allocated(p) && p != old(s.scope) ==> fld("stick.scopeStack", "scopes", p) == old(fld("stick.scopeStack", "scopes", p))
+// C08/C17: only the current writer receives output
+//@   ensures wframe: forall w trig :: allocated(w) && w != ref(old(s.out)) ==> rbuflen(w) == old(rbuflen(w)) && rbufdata(w) == old(rbufdata(w))
 // A11 (trusted, not proved): states are separate — executing on one state does not modify the list of
 // scope maps of another state's scope stack (ownership of backing arrays is not modelled).
 //@   trusts sep: forall p, i :: allocated(p) && p != old(s.scope) && 0 <= i && i < old(len(fld("stick.scopeStack", "scopes", p))) ==> fld("stick.scopeStack", "scopes", p)[i] == old(fld("stick.scopeStack", "scopes", p)[i])
-//@   loop 1 invariant frame: xinv(s) && s.scope == old(s.scope) && len(s.scope.scopes) == old(len(s.scope.scopes)) && (forall i trig :: 0 <= i && i < len(s.scope.scopes) ==> s.scope.scopes[i] == old(s.scope.scopes[i])) && s.name == old(s.name) && s.current == old(s.current) && s.env == old(s.env) && len(s.blocks) >= old(len(s.blocks)) && (forall p trig :: allocated(p) && p != old(s.scope) ==> fld("stick.scopeStack", "scopes", p) == old(fld("stick.scopeStack", "scopes", p))) && s.out == old(s.out) && (wfail() ==> old(wfail())) && (wafterfail() ==> old(wafterfail()) || old(wfail()))
+//@   loop 1 invariant frame: xinv(s) && s.scope == old(s.scope) && len(s.scope.scopes) == old(len(s.scope.scopes)) && (forall i trig :: 0 <= i && i < len(s.scope.scopes) ==> s.scope.scopes[i] == old(s.scope.scopes[i])) && s.name == old(s.name) && s.current == old(s.current) && s.env == old(s.env) && len(s.blocks) >= old(len(s.blocks)) && (forall p trig :: allocated(p) && p != old(s.scope) ==> fld("stick.scopeStack", "scopes", p) == old(fld("stick.scopeStack", "scopes", p))) && s.out == old(s.out) && (forall w trig :: allocated(w) && w != ref(old(s.out)) ==> rbuflen(w) == old(rbuflen(w)) && rbufdata(w) == old(rbufdata(w))) && (wfail() ==> old(wfail())) && (wafterfail() ==> old(wafterfail()) || old(wfail()))
 
 //@ func stick.(*state).walkForNode
 //@   propagates
@@ -276,8 +280,8 @@ package stick
 // Iterate and the per-element closure are expanded here, so that the loop over the elements is verified
 // with this function's frame invariants (scope balance per iteration: C07) next to Iterate's own.
 //@   inlines stick.Iterate
-//@   loop stick.Iterate:1 invariant frame: xinv(s) && s.scope == old(s.scope) && len(s.scope.scopes) == old(len(s.scope.scopes)) && (forall i trig :: 0 <= i && i < len(s.scope.scopes) ==> s.scope.scopes[i] == old(s.scope.scopes[i])) && s.name == old(s.name) && s.current == old(s.current) && s.env == old(s.env) && len(s.blocks) >= old(len(s.blocks)) && (forall p trig :: allocated(p) && p != old(s.scope) ==> fld("stick.scopeStack", "scopes", p) == old(fld("stick.scopeStack", "scopes", p))) && s.out == old(s.out) && (wfail() ==> old(wfail())) && (wafterfail() ==> old(wafterfail()) || old(wfail()))
-//@   loop stick.Iterate:2 invariant frame: xinv(s) && s.scope == old(s.scope) && len(s.scope.scopes) == old(len(s.scope.scopes)) && (forall i trig :: 0 <= i && i < len(s.scope.scopes) ==> s.scope.scopes[i] == old(s.scope.scopes[i])) && s.name == old(s.name) && s.current == old(s.current) && s.env == old(s.env) && len(s.blocks) >= old(len(s.blocks)) && (forall p trig :: allocated(p) && p != old(s.scope) ==> fld("stick.scopeStack", "scopes", p) == old(fld("stick.scopeStack", "scopes", p))) && s.out == old(s.out) && (wfail() ==> old(wfail())) && (wafterfail() ==> old(wafterfail()) || old(wfail()))
+//@   loop stick.Iterate:1 invariant frame: xinv(s) && s.scope == old(s.scope) && len(s.scope.scopes) == old(len(s.scope.scopes)) && (forall i trig :: 0 <= i && i < len(s.scope.scopes) ==> s.scope.scopes[i] == old(s.scope.scopes[i])) && s.name == old(s.name) && s.current == old(s.current) && s.env == old(s.env) && len(s.blocks) >= old(len(s.blocks)) && (forall p trig :: allocated(p) && p != old(s.scope) ==> fld("stick.scopeStack", "scopes", p) == old(fld("stick.scopeStack", "scopes", p))) && s.out == old(s.out) && (forall w trig :: allocated(w) && w != ref(old(s.out)) ==> rbuflen(w) == old(rbuflen(w)) && rbufdata(w) == old(rbufdata(w))) && (wfail() ==> old(wfail())) && (wafterfail() ==> old(wafterfail()) || old(wfail()))
+//@   loop stick.Iterate:2 invariant frame: xinv(s) && s.scope == old(s.scope) && len(s.scope.scopes) == old(len(s.scope.scopes)) && (forall i trig :: 0 <= i && i < len(s.scope.scopes) ==> s.scope.scopes[i] == old(s.scope.scopes[i])) && s.name == old(s.name) && s.current == old(s.current) && s.env == old(s.env) && len(s.blocks) >= old(len(s.blocks)) && (forall p trig :: allocated(p) && p != old(s.scope) ==> fld("stick.scopeStack", "scopes", p) == old(fld("stick.scopeStack", "scopes", p))) && s.out == old(s.out) && (forall w trig :: allocated(w) && w != ref(old(s.out)) ==> rbuflen(w) == old(rbuflen(w)) && rbufdata(w) == old(rbufdata(w))) && (wfail() ==> old(wfail())) && (wafterfail() ==> old(wafterfail()) || old(wfail()))
 //@   requires xinv(s)
 //@   ensures inv: xinv(s)
 //@   ensures out: err == nil ==> s.out == old(s.out)
@@ -285,6 +289,8 @@ package stick
 //@   ensures name: s.name == old(s.name) && s.current == old(s.current) && s.env == old(s.env)
 //@   ensures blocks: len(s.blocks) >= old(len(s.blocks))
 //@   ensures others: forall p trig :: allocated(p) && p != old(s.scope) ==> fld("stick.scopeStack", "scopes", p) == old(fld("stick.scopeStack", "scopes", p))
+// C08/C17: only the current writer receives output
+//@   ensures wframe: forall w trig :: allocated(w) && w != ref(old(s.out)) ==> rbuflen(w) == old(rbuflen(w)) && rbufdata(w) == old(rbufdata(w))
 // A11 (trusted, not proved): states are separate — executing on one state does not modify the list of
 // scope maps of another state's scope stack (ownership of backing arrays is not modelled).
 //@   trusts sep: forall p, i :: allocated(p) && p != old(s.scope) && 0 <= i && i < old(len(fld("stick.scopeStack", "scopes", p))) ==> fld("stick.scopeStack", "scopes", p)[i] == old(fld("stick.scopeStack", "scopes", p)[i])
@@ -301,12 +307,14 @@ package stick
 //@   ensures name: s.name == old(s.name) && s.current == old(s.current) && s.env == old(s.env)
 //@   ensures blocks: len(s.blocks) >= old(len(s.blocks))
 //@   ensures others: forall p trig :: allocated(p) && p != old(s.scope) ==> fld("stick.scopeStack", "scopes", p) == old(fld("stick.scopeStack", "scopes", p))
+// C08/C17: only the current writer receives output
+//@   ensures wframe: forall w trig :: allocated(w) && w != ref(old(s.out)) ==> rbuflen(w) == old(rbuflen(w)) && rbufdata(w) == old(rbufdata(w))
 // A11 (trusted, not proved): states are separate — executing on one state does not modify the list of
 // scope maps of another state's scope stack (ownership of backing arrays is not modelled).
 //@   trusts sep: forall p, i :: allocated(p) && p != old(s.scope) && 0 <= i && i < old(len(fld("stick.scopeStack", "scopes", p))) ==> fld("stick.scopeStack", "scopes", p)[i] == old(fld("stick.scopeStack", "scopes", p)[i])
-//@   loop 1 invariant frame: xinv(s) && s.scope == old(s.scope) && len(s.scope.scopes) == old(len(s.scope.scopes)) && (forall i trig :: 0 <= i && i < len(s.scope.scopes) ==> s.scope.scopes[i] == old(s.scope.scopes[i])) && s.name == old(s.name) && s.current == old(s.current) && s.env == old(s.env) && len(s.blocks) >= old(len(s.blocks)) && (forall p trig :: allocated(p) && p != old(s.scope) ==> fld("stick.scopeStack", "scopes", p) == old(fld("stick.scopeStack", "scopes", p))) && s.out == old(s.out) && (wfail() ==> old(wfail())) && (wafterfail() ==> old(wafterfail()) || old(wfail()))
-//@   loop 2 invariant frame: xinv(s) && s.scope == old(s.scope) && len(s.scope.scopes) == old(len(s.scope.scopes)) && (forall i trig :: 0 <= i && i < len(s.scope.scopes) ==> s.scope.scopes[i] == old(s.scope.scopes[i])) && s.name == old(s.name) && s.current == old(s.current) && s.env == old(s.env) && len(s.blocks) >= old(len(s.blocks)) && (forall p trig :: allocated(p) && p != old(s.scope) ==> fld("stick.scopeStack", "scopes", p) == old(fld("stick.scopeStack", "scopes", p))) && s.out == old(s.out) && (wfail() ==> old(wfail())) && (wafterfail() ==> old(wafterfail()) || old(wfail()))
-//@   loop 3 invariant frame: xinv(s) && s.scope == old(s.scope) && len(s.scope.scopes) == old(len(s.scope.scopes)) && (forall i trig :: 0 <= i && i < len(s.scope.scopes) ==> s.scope.scopes[i] == old(s.scope.scopes[i])) && s.name == old(s.name) && s.current == old(s.current) && s.env == old(s.env) && len(s.blocks) >= old(len(s.blocks)) && (forall p trig :: allocated(p) && p != old(s.scope) ==> fld("stick.scopeStack", "scopes", p) == old(fld("stick.scopeStack", "scopes", p))) && s.out == old(s.out) && (wfail() ==> old(wfail())) && (wafterfail() ==> old(wafterfail()) || old(wfail()))
+//@   loop 1 invariant frame: xinv(s) && s.scope == old(s.scope) && len(s.scope.scopes) == old(len(s.scope.scopes)) && (forall i trig :: 0 <= i && i < len(s.scope.scopes) ==> s.scope.scopes[i] == old(s.scope.scopes[i])) && s.name == old(s.name) && s.current == old(s.current) && s.env == old(s.env) && len(s.blocks) >= old(len(s.blocks)) && (forall p trig :: allocated(p) && p != old(s.scope) ==> fld("stick.scopeStack", "scopes", p) == old(fld("stick.scopeStack", "scopes", p))) && s.out == old(s.out) && (forall w trig :: allocated(w) && w != ref(old(s.out)) ==> rbuflen(w) == old(rbuflen(w)) && rbufdata(w) == old(rbufdata(w))) && (wfail() ==> old(wfail())) && (wafterfail() ==> old(wafterfail()) || old(wfail()))
+//@   loop 2 invariant frame: xinv(s) && s.scope == old(s.scope) && len(s.scope.scopes) == old(len(s.scope.scopes)) && (forall i trig :: 0 <= i && i < len(s.scope.scopes) ==> s.scope.scopes[i] == old(s.scope.scopes[i])) && s.name == old(s.name) && s.current == old(s.current) && s.env == old(s.env) && len(s.blocks) >= old(len(s.blocks)) && (forall p trig :: allocated(p) && p != old(s.scope) ==> fld("stick.scopeStack", "scopes", p) == old(fld("stick.scopeStack", "scopes", p))) && s.out == old(s.out) && (forall w trig :: allocated(w) && w != ref(old(s.out)) ==> rbuflen(w) == old(rbuflen(w)) && rbufdata(w) == old(rbufdata(w))) && (wfail() ==> old(wfail())) && (wafterfail() ==> old(wafterfail()) || old(wfail()))
+//@   loop 3 invariant frame: xinv(s) && s.scope == old(s.scope) && len(s.scope.scopes) == old(len(s.scope.scopes)) && (forall i trig :: 0 <= i && i < len(s.scope.scopes) ==> s.scope.scopes[i] == old(s.scope.scopes[i])) && s.name == old(s.name) && s.current == old(s.current) && s.env == old(s.env) && len(s.blocks) >= old(len(s.blocks)) && (forall p trig :: allocated(p) && p != old(s.scope) ==> fld("stick.scopeStack", "scopes", p) == old(fld("stick.scopeStack", "scopes", p))) && s.out == old(s.out) && (forall w trig :: allocated(w) && w != ref(old(s.out)) ==> rbuflen(w) == old(rbuflen(w)) && rbufdata(w) == old(rbufdata(w))) && (wfail() ==> old(wfail())) && (wafterfail() ==> old(wafterfail()) || old(wfail()))
 
 //@ func stick.(*state).walkUseNode
 //@   propagates
@@ -319,10 +327,12 @@ package stick
 //@   ensures name: s.name == old(s.name) && s.current == old(s.current) && s.env == old(s.env)
 //@   ensures blocks: len(s.blocks) >= old(len(s.blocks))
 //@   ensures others: forall p trig :: allocated(p) && p != old(s.scope) ==> fld("stick.scopeStack", "scopes", p) == old(fld("stick.scopeStack", "scopes", p))
+// C08/C17: only the current writer receives output
+//@   ensures wframe: forall w trig :: allocated(w) && w != ref(old(s.out)) ==> rbuflen(w) == old(rbuflen(w)) && rbufdata(w) == old(rbufdata(w))
 // A11 (trusted, not proved): states are separate — executing on one state does not modify the list of
 // scope maps of another state's scope stack (ownership of backing arrays is not modelled).
 //@   trusts sep: forall p, i :: allocated(p) && p != old(s.scope) && 0 <= i && i < old(len(fld("stick.scopeStack", "scopes", p))) ==> fld("stick.scopeStack", "scopes", p)[i] == old(fld("stick.scopeStack", "scopes", p)[i])
-//@   loop 1 invariant frame: xinv(s) && s.scope == old(s.scope) && len(s.scope.scopes) == old(len(s.scope.scopes)) && (forall i trig :: 0 <= i && i < len(s.scope.scopes) ==> s.scope.scopes[i] == old(s.scope.scopes[i])) && s.name == old(s.name) && s.current == old(s.current) && s.env == old(s.env) && len(s.blocks) >= old(len(s.blocks)) && (forall p trig :: allocated(p) && p != old(s.scope) ==> fld("stick.scopeStack", "scopes", p) == old(fld("stick.scopeStack", "scopes", p))) && s.out == old(s.out) && (wfail() ==> old(wfail())) && (wafterfail() ==> old(wafterfail()) || old(wfail()))
+//@   loop 1 invariant frame: xinv(s) && s.scope == old(s.scope) && len(s.scope.scopes) == old(len(s.scope.scopes)) && (forall i trig :: 0 <= i && i < len(s.scope.scopes) ==> s.scope.scopes[i] == old(s.scope.scopes[i])) && s.name == old(s.name) && s.current == old(s.current) && s.env == old(s.env) && len(s.blocks) >= old(len(s.blocks)) && (forall p trig :: allocated(p) && p != old(s.scope) ==> fld("stick.scopeStack", "scopes", p) == old(fld("stick.scopeStack", "scopes", p))) && s.out == old(s.out) && (forall w trig :: allocated(w) && w != ref(old(s.out)) ==> rbuflen(w) == old(rbuflen(w)) && rbufdata(w) == old(rbufdata(w))) && (wfail() ==> old(wfail())) && (wafterfail() ==> old(wafterfail()) || old(wfail()))
 
 //@ func stick.(*state).walkSetNode
 //@   propagates
@@ -335,6 +345,8 @@ package stick
 //@   ensures name: s.name == old(s.name) && s.current == old(s.current) && s.env == old(s.env)
 //@   ensures blocks: len(s.blocks) >= old(len(s.blocks))
 //@   ensures others: forall p trig :: allocated(p) && p != old(s.scope) ==> fld("stick.scopeStack", "scopes", p) == old(fld("stick.scopeStack", "scopes", p))
+// C08/C17: only the current writer receives output
+//@   ensures wframe: forall w trig :: allocated(w) && w != ref(old(s.out)) ==> rbuflen(w) == old(rbuflen(w)) && rbufdata(w) == old(rbufdata(w))
 // A11 (trusted, not proved): states are separate — executing on one state does not modify the list of
 // scope maps of another state's scope stack (ownership of backing arrays is not modelled).
 //@   trusts sep: forall p, i :: allocated(p) && p != old(s.scope) && 0 <= i && i < old(len(fld("stick.scopeStack", "scopes", p))) ==> fld("stick.scopeStack", "scopes", p)[i] == old(fld("stick.scopeStack", "scopes", p)[i])
@@ -350,6 +362,8 @@ package stick
 //@   ensures name: s.name == old(s.name) && s.current == old(s.current) && s.env == old(s.env)
 //@   ensures blocks: len(s.blocks) >= old(len(s.blocks))
 //@   ensures others: forall p trig :: allocated(p) && p != old(s.scope) ==> fld("stick.scopeStack", "scopes", p) == old(fld("stick.scopeStack", "scopes", p))
+// C08/C17: only the current writer receives output
+//@   ensures wframe: forall w trig :: allocated(w) && w != ref(old(s.out)) ==> rbuflen(w) == old(rbuflen(w)) && rbufdata(w) == old(rbufdata(w))
 // A11 (trusted, not proved): states are separate — executing on one state does not modify the list of
 // scope maps of another state's scope stack (ownership of backing arrays is not modelled).
 //@   trusts sep: forall p, i :: allocated(p) && p != old(s.scope) && 0 <= i && i < old(len(fld("stick.scopeStack", "scopes", p))) ==> fld("stick.scopeStack", "scopes", p)[i] == old(fld("stick.scopeStack", "scopes", p)[i])
@@ -366,10 +380,12 @@ package stick
 //@   ensures name: s.name == old(s.name) && s.current == old(s.current) && s.env == old(s.env)
 //@   ensures blocks: len(s.blocks) >= old(len(s.blocks))
 //@   ensures others: forall p trig :: allocated(p) && p != old(s.scope) ==> fld("stick.scopeStack", "scopes", p) == old(fld("stick.scopeStack", "scopes", p))
+// C08/C17: only the current writer receives output
+//@   ensures wframe: forall w trig :: allocated(w) && w != ref(old(s.out)) ==> rbuflen(w) == old(rbuflen(w)) && rbufdata(w) == old(rbufdata(w))
 // A11 (trusted, not proved): states are separate — executing on one state does not modify the list of
 // scope maps of another state's scope stack (ownership of backing arrays is not modelled).
 //@   trusts sep: forall p, i :: allocated(p) && p != old(s.scope) && 0 <= i && i < old(len(fld("stick.scopeStack", "scopes", p))) ==> fld("stick.scopeStack", "scopes", p)[i] == old(fld("stick.scopeStack", "scopes", p)[i])
-//@   loop 1 invariant frame: xinv(s) && s.scope == old(s.scope) && len(s.scope.scopes) == old(len(s.scope.scopes)) && (forall i trig :: 0 <= i && i < len(s.scope.scopes) ==> s.scope.scopes[i] == old(s.scope.scopes[i])) && s.name == old(s.name) && s.current == old(s.current) && s.env == old(s.env) && len(s.blocks) >= old(len(s.blocks)) && (forall p trig :: allocated(p) && p != old(s.scope) ==> fld("stick.scopeStack", "scopes", p) == old(fld("stick.scopeStack", "scopes", p)))
+//@   loop 1 invariant frame: xinv(s) && s.scope == old(s.scope) && len(s.scope.scopes) == old(len(s.scope.scopes)) && (forall i trig :: 0 <= i && i < len(s.scope.scopes) ==> s.scope.scopes[i] == old(s.scope.scopes[i])) && s.name == old(s.name) && s.current == old(s.current) && s.env == old(s.env) && len(s.blocks) >= old(len(s.blocks)) && (forall p trig :: allocated(p) && p != old(s.scope) ==> fld("stick.scopeStack", "scopes", p) == old(fld("stick.scopeStack", "scopes", p))) && (forall w trig :: allocated(w) && w != ref(old(s.out)) ==> rbuflen(w) == old(rbuflen(w)) && rbufdata(w) == old(rbufdata(w))) && (wfail() ==> old(wfail())) && (wafterfail() ==> old(wafterfail()) || old(wfail()))
 
 //@ func stick.(*state).walkImportNode
 //@   propagates
@@ -382,10 +398,12 @@ package stick
 //@   ensures name: s.name == old(s.name) && s.current == old(s.current) && s.env == old(s.env)
 //@   ensures blocks: len(s.blocks) >= old(len(s.blocks))
 //@   ensures others: forall p trig :: allocated(p) && p != old(s.scope) ==> fld("stick.scopeStack", "scopes", p) == old(fld("stick.scopeStack", "scopes", p))
+// C08/C17: only the current writer receives output
+//@   ensures wframe: forall w trig :: allocated(w) && w != ref(old(s.out)) ==> rbuflen(w) == old(rbuflen(w)) && rbufdata(w) == old(rbufdata(w))
 // A11 (trusted, not proved): states are separate — executing on one state does not modify the list of
 // scope maps of another state's scope stack (ownership of backing arrays is not modelled).
 //@   trusts sep: forall p, i :: allocated(p) && p != old(s.scope) && 0 <= i && i < old(len(fld("stick.scopeStack", "scopes", p))) ==> fld("stick.scopeStack", "scopes", p)[i] == old(fld("stick.scopeStack", "scopes", p)[i])
-//@   loop 1 invariant frame: xinv(s) && s.scope == old(s.scope) && len(s.scope.scopes) == old(len(s.scope.scopes)) && (forall i trig :: 0 <= i && i < len(s.scope.scopes) ==> s.scope.scopes[i] == old(s.scope.scopes[i])) && s.name == old(s.name) && s.current == old(s.current) && s.env == old(s.env) && len(s.blocks) >= old(len(s.blocks)) && (forall p trig :: allocated(p) && p != old(s.scope) ==> fld("stick.scopeStack", "scopes", p) == old(fld("stick.scopeStack", "scopes", p))) && s.out == old(s.out) && (wfail() ==> old(wfail())) && (wafterfail() ==> old(wafterfail()) || old(wfail()))
+//@   loop 1 invariant frame: xinv(s) && s.scope == old(s.scope) && len(s.scope.scopes) == old(len(s.scope.scopes)) && (forall i trig :: 0 <= i && i < len(s.scope.scopes) ==> s.scope.scopes[i] == old(s.scope.scopes[i])) && s.name == old(s.name) && s.current == old(s.current) && s.env == old(s.env) && len(s.blocks) >= old(len(s.blocks)) && (forall p trig :: allocated(p) && p != old(s.scope) ==> fld("stick.scopeStack", "scopes", p) == old(fld("stick.scopeStack", "scopes", p))) && s.out == old(s.out) && (forall w trig :: allocated(w) && w != ref(old(s.out)) ==> rbuflen(w) == old(rbuflen(w)) && rbufdata(w) == old(rbufdata(w))) && (wfail() ==> old(wfail())) && (wafterfail() ==> old(wafterfail()) || old(wfail()))
 
 //@ func stick.(*state).walkFromNode
 //@   propagates
@@ -398,14 +416,16 @@ package stick
 //@   ensures name: s.name == old(s.name) && s.current == old(s.current) && s.env == old(s.env)
 //@   ensures blocks: len(s.blocks) >= old(len(s.blocks))
 //@   ensures others: forall p trig :: allocated(p) && p != old(s.scope) ==> fld("stick.scopeStack", "scopes", p) == old(fld("stick.scopeStack", "scopes", p))
+// C08/C17: only the current writer receives output
+//@   ensures wframe: forall w trig :: allocated(w) && w != ref(old(s.out)) ==> rbuflen(w) == old(rbuflen(w)) && rbufdata(w) == old(rbufdata(w))
 // A11 (trusted, not proved): states are separate — executing on one state does not modify the list of
 // scope maps of another state's scope stack (ownership of backing arrays is not modelled).
 //@   trusts sep: forall p, i :: allocated(p) && p != old(s.scope) && 0 <= i && i < old(len(fld("stick.scopeStack", "scopes", p))) ==> fld("stick.scopeStack", "scopes", p)[i] == old(fld("stick.scopeStack", "scopes", p)[i])
-//@   loop 1 invariant frame: xinv(s) && s.scope == old(s.scope) && len(s.scope.scopes) == old(len(s.scope.scopes)) && (forall i trig :: 0 <= i && i < len(s.scope.scopes) ==> s.scope.scopes[i] == old(s.scope.scopes[i])) && s.name == old(s.name) && s.current == old(s.current) && s.env == old(s.env) && len(s.blocks) >= old(len(s.blocks)) && (forall p trig :: allocated(p) && p != old(s.scope) ==> fld("stick.scopeStack", "scopes", p) == old(fld("stick.scopeStack", "scopes", p))) && s.out == old(s.out) && (wfail() ==> old(wfail())) && (wafterfail() ==> old(wafterfail()) || old(wfail()))
+//@   loop 1 invariant frame: xinv(s) && s.scope == old(s.scope) && len(s.scope.scopes) == old(len(s.scope.scopes)) && (forall i trig :: 0 <= i && i < len(s.scope.scopes) ==> s.scope.scopes[i] == old(s.scope.scopes[i])) && s.name == old(s.name) && s.current == old(s.current) && s.env == old(s.env) && len(s.blocks) >= old(len(s.blocks)) && (forall p trig :: allocated(p) && p != old(s.scope) ==> fld("stick.scopeStack", "scopes", p) == old(fld("stick.scopeStack", "scopes", p))) && s.out == old(s.out) && (forall w trig :: allocated(w) && w != ref(old(s.out)) ==> rbuflen(w) == old(rbuflen(w)) && rbufdata(w) == old(rbufdata(w))) && (wfail() ==> old(wfail())) && (wafterfail() ==> old(wafterfail()) || old(wfail()))
 
 //@ func stick.(*state).evalExpr
 // (the lookup error of GetAttr is discarded by design: missing attributes render empty, C16)
-//@   propagates except GetAttr(
+//@   propagates except GetAttr(, errors.New("undefinedvariable
 //@   ensures wfail: wfail() && !old(wfail()) ==> err != nil
 //@   ensures order: wafterfail() ==> old(wafterfail()) || old(wfail())
 //@   reveal cbOK
@@ -416,14 +436,16 @@ package stick
 //@   ensures name: s.name == old(s.name) && s.current == old(s.current) && s.env == old(s.env)
 //@   ensures blocks: len(s.blocks) >= old(len(s.blocks))
 //@   ensures others: forall p trig :: allocated(p) && p != old(s.scope) ==> fld("stick.scopeStack", "scopes", p) == old(fld("stick.scopeStack", "scopes", p))
+// C08/C17: only the current writer receives output
+//@   ensures wframe: forall w trig :: allocated(w) && w != ref(old(s.out)) ==> rbuflen(w) == old(rbuflen(w)) && rbufdata(w) == old(rbufdata(w))
 // A11 (trusted, not proved): states are separate — executing on one state does not modify the list of
 // scope maps of another state's scope stack (ownership of backing arrays is not modelled).
 //@   trusts sep: forall p, i :: allocated(p) && p != old(s.scope) && 0 <= i && i < old(len(fld("stick.scopeStack", "scopes", p))) ==> fld("stick.scopeStack", "scopes", p)[i] == old(fld("stick.scopeStack", "scopes", p)[i])
-//@   loop 1 invariant frame: xinv(s) && s.scope == old(s.scope) && len(s.scope.scopes) == old(len(s.scope.scopes)) && (forall i trig :: 0 <= i && i < len(s.scope.scopes) ==> s.scope.scopes[i] == old(s.scope.scopes[i])) && s.name == old(s.name) && s.current == old(s.current) && s.env == old(s.env) && len(s.blocks) >= old(len(s.blocks)) && (forall p trig :: allocated(p) && p != old(s.scope) ==> fld("stick.scopeStack", "scopes", p) == old(fld("stick.scopeStack", "scopes", p))) && s.out == old(s.out) && (wfail() ==> old(wfail())) && (wafterfail() ==> old(wafterfail()) || old(wfail()))
-//@   loop 2 invariant frame: xinv(s) && s.scope == old(s.scope) && len(s.scope.scopes) == old(len(s.scope.scopes)) && (forall i trig :: 0 <= i && i < len(s.scope.scopes) ==> s.scope.scopes[i] == old(s.scope.scopes[i])) && s.name == old(s.name) && s.current == old(s.current) && s.env == old(s.env) && len(s.blocks) >= old(len(s.blocks)) && (forall p trig :: allocated(p) && p != old(s.scope) ==> fld("stick.scopeStack", "scopes", p) == old(fld("stick.scopeStack", "scopes", p))) && s.out == old(s.out) && (wfail() ==> old(wfail())) && (wafterfail() ==> old(wafterfail()) || old(wfail()))
-//@   loop 3 invariant frame: xinv(s) && s.scope == old(s.scope) && len(s.scope.scopes) == old(len(s.scope.scopes)) && (forall i trig :: 0 <= i && i < len(s.scope.scopes) ==> s.scope.scopes[i] == old(s.scope.scopes[i])) && s.name == old(s.name) && s.current == old(s.current) && s.env == old(s.env) && len(s.blocks) >= old(len(s.blocks)) && (forall p trig :: allocated(p) && p != old(s.scope) ==> fld("stick.scopeStack", "scopes", p) == old(fld("stick.scopeStack", "scopes", p))) && s.out == old(s.out) && (wfail() ==> old(wfail())) && (wafterfail() ==> old(wafterfail()) || old(wfail()))
-//@   loop 4 invariant frame: xinv(s) && s.scope == old(s.scope) && len(s.scope.scopes) == old(len(s.scope.scopes)) && (forall i trig :: 0 <= i && i < len(s.scope.scopes) ==> s.scope.scopes[i] == old(s.scope.scopes[i])) && s.name == old(s.name) && s.current == old(s.current) && s.env == old(s.env) && len(s.blocks) >= old(len(s.blocks)) && (forall p trig :: allocated(p) && p != old(s.scope) ==> fld("stick.scopeStack", "scopes", p) == old(fld("stick.scopeStack", "scopes", p))) && s.out == old(s.out) && (wfail() ==> old(wfail())) && (wafterfail() ==> old(wafterfail()) || old(wfail()))
-//@   loop 5 invariant frame: xinv(s) && s.scope == old(s.scope) && len(s.scope.scopes) == old(len(s.scope.scopes)) && (forall i trig :: 0 <= i && i < len(s.scope.scopes) ==> s.scope.scopes[i] == old(s.scope.scopes[i])) && s.name == old(s.name) && s.current == old(s.current) && s.env == old(s.env) && len(s.blocks) >= old(len(s.blocks)) && (forall p trig :: allocated(p) && p != old(s.scope) ==> fld("stick.scopeStack", "scopes", p) == old(fld("stick.scopeStack", "scopes", p))) && s.out == old(s.out) && (wfail() ==> old(wfail())) && (wafterfail() ==> old(wafterfail()) || old(wfail()))
+//@   loop 1 invariant frame: xinv(s) && s.scope == old(s.scope) && len(s.scope.scopes) == old(len(s.scope.scopes)) && (forall i trig :: 0 <= i && i < len(s.scope.scopes) ==> s.scope.scopes[i] == old(s.scope.scopes[i])) && s.name == old(s.name) && s.current == old(s.current) && s.env == old(s.env) && len(s.blocks) >= old(len(s.blocks)) && (forall p trig :: allocated(p) && p != old(s.scope) ==> fld("stick.scopeStack", "scopes", p) == old(fld("stick.scopeStack", "scopes", p))) && s.out == old(s.out) && (forall w trig :: allocated(w) && w != ref(old(s.out)) ==> rbuflen(w) == old(rbuflen(w)) && rbufdata(w) == old(rbufdata(w))) && (wfail() ==> old(wfail())) && (wafterfail() ==> old(wafterfail()) || old(wfail()))
+//@   loop 2 invariant frame: xinv(s) && s.scope == old(s.scope) && len(s.scope.scopes) == old(len(s.scope.scopes)) && (forall i trig :: 0 <= i && i < len(s.scope.scopes) ==> s.scope.scopes[i] == old(s.scope.scopes[i])) && s.name == old(s.name) && s.current == old(s.current) && s.env == old(s.env) && len(s.blocks) >= old(len(s.blocks)) && (forall p trig :: allocated(p) && p != old(s.scope) ==> fld("stick.scopeStack", "scopes", p) == old(fld("stick.scopeStack", "scopes", p))) && s.out == old(s.out) && (forall w trig :: allocated(w) && w != ref(old(s.out)) ==> rbuflen(w) == old(rbuflen(w)) && rbufdata(w) == old(rbufdata(w))) && (wfail() ==> old(wfail())) && (wafterfail() ==> old(wafterfail()) || old(wfail()))
+//@   loop 3 invariant frame: xinv(s) && s.scope == old(s.scope) && len(s.scope.scopes) == old(len(s.scope.scopes)) && (forall i trig :: 0 <= i && i < len(s.scope.scopes) ==> s.scope.scopes[i] == old(s.scope.scopes[i])) && s.name == old(s.name) && s.current == old(s.current) && s.env == old(s.env) && len(s.blocks) >= old(len(s.blocks)) && (forall p trig :: allocated(p) && p != old(s.scope) ==> fld("stick.scopeStack", "scopes", p) == old(fld("stick.scopeStack", "scopes", p))) && s.out == old(s.out) && (forall w trig :: allocated(w) && w != ref(old(s.out)) ==> rbuflen(w) == old(rbuflen(w)) && rbufdata(w) == old(rbufdata(w))) && (wfail() ==> old(wfail())) && (wafterfail() ==> old(wafterfail()) || old(wfail()))
+//@   loop 4 invariant frame: xinv(s) && s.scope == old(s.scope) && len(s.scope.scopes) == old(len(s.scope.scopes)) && (forall i trig :: 0 <= i && i < len(s.scope.scopes) ==> s.scope.scopes[i] == old(s.scope.scopes[i])) && s.name == old(s.name) && s.current == old(s.current) && s.env == old(s.env) && len(s.blocks) >= old(len(s.blocks)) && (forall p trig :: allocated(p) && p != old(s.scope) ==> fld("stick.scopeStack", "scopes", p) == old(fld("stick.scopeStack", "scopes", p))) && s.out == old(s.out) && (forall w trig :: allocated(w) && w != ref(old(s.out)) ==> rbuflen(w) == old(rbuflen(w)) && rbufdata(w) == old(rbufdata(w))) && (wfail() ==> old(wfail())) && (wafterfail() ==> old(wafterfail()) || old(wfail()))
+//@   loop 5 invariant frame: xinv(s) && s.scope == old(s.scope) && len(s.scope.scopes) == old(len(s.scope.scopes)) && (forall i trig :: 0 <= i && i < len(s.scope.scopes) ==> s.scope.scopes[i] == old(s.scope.scopes[i])) && s.name == old(s.name) && s.current == old(s.current) && s.env == old(s.env) && len(s.blocks) >= old(len(s.blocks)) && (forall p trig :: allocated(p) && p != old(s.scope) ==> fld("stick.scopeStack", "scopes", p) == old(fld("stick.scopeStack", "scopes", p))) && s.out == old(s.out) && (forall w trig :: allocated(w) && w != ref(old(s.out)) ==> rbuflen(w) == old(rbuflen(w)) && rbufdata(w) == old(rbufdata(w))) && (wfail() ==> old(wfail())) && (wafterfail() ==> old(wafterfail()) || old(wfail()))
 
 //@ func stick.(*state).evalFunction
 //@   propagates
@@ -437,12 +459,14 @@ package stick
 //@   ensures name: s.name == old(s.name) && s.current == old(s.current) && s.env == old(s.env)
 //@   ensures blocks: len(s.blocks) >= old(len(s.blocks))
 //@   ensures others: forall p trig :: allocated(p) && p != old(s.scope) ==> fld("stick.scopeStack", "scopes", p) == old(fld("stick.scopeStack", "scopes", p))
+// C08/C17: only the current writer receives output
+//@   ensures wframe: forall w trig :: allocated(w) && w != ref(old(s.out)) ==> rbuflen(w) == old(rbuflen(w)) && rbufdata(w) == old(rbufdata(w))
 // A11 (trusted, not proved): states are separate — executing on one state does not modify the list of
 // scope maps of another state's scope stack (ownership of backing arrays is not modelled).
 //@   trusts sep: forall p, i :: allocated(p) && p != old(s.scope) && 0 <= i && i < old(len(fld("stick.scopeStack", "scopes", p))) ==> fld("stick.scopeStack", "scopes", p)[i] == old(fld("stick.scopeStack", "scopes", p)[i])
-//@   loop 1 invariant frame: xinv(s) && s.scope == old(s.scope) && len(s.scope.scopes) == old(len(s.scope.scopes)) && (forall i trig :: 0 <= i && i < len(s.scope.scopes) ==> s.scope.scopes[i] == old(s.scope.scopes[i])) && s.name == old(s.name) && s.current == old(s.current) && s.env == old(s.env) && len(s.blocks) >= old(len(s.blocks)) && (forall p trig :: allocated(p) && p != old(s.scope) ==> fld("stick.scopeStack", "scopes", p) == old(fld("stick.scopeStack", "scopes", p))) && s.out == old(s.out) && (wfail() ==> old(wfail())) && (wafterfail() ==> old(wafterfail()) || old(wfail()))
-//@   loop 2 invariant frame: xinv(s) && s.scope == old(s.scope) && len(s.scope.scopes) == old(len(s.scope.scopes)) && (forall i trig :: 0 <= i && i < len(s.scope.scopes) ==> s.scope.scopes[i] == old(s.scope.scopes[i])) && s.name == old(s.name) && s.current == old(s.current) && s.env == old(s.env) && len(s.blocks) >= old(len(s.blocks)) && (forall p trig :: allocated(p) && p != old(s.scope) ==> fld("stick.scopeStack", "scopes", p) == old(fld("stick.scopeStack", "scopes", p))) && s.out == old(s.out) && (wfail() ==> old(wfail())) && (wafterfail() ==> old(wafterfail()) || old(wfail()))
-//@   loop 3 invariant frame: xinv(s) && s.scope == old(s.scope) && len(s.scope.scopes) == old(len(s.scope.scopes)) && (forall i trig :: 0 <= i && i < len(s.scope.scopes) ==> s.scope.scopes[i] == old(s.scope.scopes[i])) && s.name == old(s.name) && s.current == old(s.current) && s.env == old(s.env) && len(s.blocks) >= old(len(s.blocks)) && (forall p trig :: allocated(p) && p != old(s.scope) ==> fld("stick.scopeStack", "scopes", p) == old(fld("stick.scopeStack", "scopes", p))) && s.out == old(s.out) && (wfail() ==> old(wfail())) && (wafterfail() ==> old(wafterfail()) || old(wfail()))
+//@   loop 1 invariant frame: xinv(s) && s.scope == old(s.scope) && len(s.scope.scopes) == old(len(s.scope.scopes)) && (forall i trig :: 0 <= i && i < len(s.scope.scopes) ==> s.scope.scopes[i] == old(s.scope.scopes[i])) && s.name == old(s.name) && s.current == old(s.current) && s.env == old(s.env) && len(s.blocks) >= old(len(s.blocks)) && (forall p trig :: allocated(p) && p != old(s.scope) ==> fld("stick.scopeStack", "scopes", p) == old(fld("stick.scopeStack", "scopes", p))) && s.out == old(s.out) && (forall w trig :: allocated(w) && w != ref(old(s.out)) ==> rbuflen(w) == old(rbuflen(w)) && rbufdata(w) == old(rbufdata(w))) && (wfail() ==> old(wfail())) && (wafterfail() ==> old(wafterfail()) || old(wfail()))
+//@   loop 2 invariant frame: xinv(s) && s.scope == old(s.scope) && len(s.scope.scopes) == old(len(s.scope.scopes)) && (forall i trig :: 0 <= i && i < len(s.scope.scopes) ==> s.scope.scopes[i] == old(s.scope.scopes[i])) && s.name == old(s.name) && s.current == old(s.current) && s.env == old(s.env) && len(s.blocks) >= old(len(s.blocks)) && (forall p trig :: allocated(p) && p != old(s.scope) ==> fld("stick.scopeStack", "scopes", p) == old(fld("stick.scopeStack", "scopes", p))) && s.out == old(s.out) && (forall w trig :: allocated(w) && w != ref(old(s.out)) ==> rbuflen(w) == old(rbuflen(w)) && rbufdata(w) == old(rbufdata(w))) && (wfail() ==> old(wfail())) && (wafterfail() ==> old(wafterfail()) || old(wfail()))
+//@   loop 3 invariant frame: xinv(s) && s.scope == old(s.scope) && len(s.scope.scopes) == old(len(s.scope.scopes)) && (forall i trig :: 0 <= i && i < len(s.scope.scopes) ==> s.scope.scopes[i] == old(s.scope.scopes[i])) && s.name == old(s.name) && s.current == old(s.current) && s.env == old(s.env) && len(s.blocks) >= old(len(s.blocks)) && (forall p trig :: allocated(p) && p != old(s.scope) ==> fld("stick.scopeStack", "scopes", p) == old(fld("stick.scopeStack", "scopes", p))) && s.out == old(s.out) && (forall w trig :: allocated(w) && w != ref(old(s.out)) ==> rbuflen(w) == old(rbuflen(w)) && rbufdata(w) == old(rbufdata(w))) && (wfail() ==> old(wfail())) && (wafterfail() ==> old(wafterfail()) || old(wfail()))
 
 //@ func stick.(*state).evalFilter
 //@   propagates
@@ -456,10 +480,12 @@ package stick
 //@   ensures name: s.name == old(s.name) && s.current == old(s.current) && s.env == old(s.env)
 //@   ensures blocks: len(s.blocks) >= old(len(s.blocks))
 //@   ensures others: forall p trig :: allocated(p) && p != old(s.scope) ==> fld("stick.scopeStack", "scopes", p) == old(fld("stick.scopeStack", "scopes", p))
+// C08/C17: only the current writer receives output
+//@   ensures wframe: forall w trig :: allocated(w) && w != ref(old(s.out)) ==> rbuflen(w) == old(rbuflen(w)) && rbufdata(w) == old(rbufdata(w))
 // A11 (trusted, not proved): states are separate — executing on one state does not modify the list of
 // scope maps of another state's scope stack (ownership of backing arrays is not modelled).
 //@   trusts sep: forall p, i :: allocated(p) && p != old(s.scope) && 0 <= i && i < old(len(fld("stick.scopeStack", "scopes", p))) ==> fld("stick.scopeStack", "scopes", p)[i] == old(fld("stick.scopeStack", "scopes", p)[i])
-//@   loop 1 invariant frame: xinv(s) && s.scope == old(s.scope) && len(s.scope.scopes) == old(len(s.scope.scopes)) && (forall i trig :: 0 <= i && i < len(s.scope.scopes) ==> s.scope.scopes[i] == old(s.scope.scopes[i])) && s.name == old(s.name) && s.current == old(s.current) && s.env == old(s.env) && len(s.blocks) >= old(len(s.blocks)) && (forall p trig :: allocated(p) && p != old(s.scope) ==> fld("stick.scopeStack", "scopes", p) == old(fld("stick.scopeStack", "scopes", p))) && s.out == old(s.out) && (wfail() ==> old(wfail())) && (wafterfail() ==> old(wafterfail()) || old(wfail()))
+//@   loop 1 invariant frame: xinv(s) && s.scope == old(s.scope) && len(s.scope.scopes) == old(len(s.scope.scopes)) && (forall i trig :: 0 <= i && i < len(s.scope.scopes) ==> s.scope.scopes[i] == old(s.scope.scopes[i])) && s.name == old(s.name) && s.current == old(s.current) && s.env == old(s.env) && len(s.blocks) >= old(len(s.blocks)) && (forall p trig :: allocated(p) && p != old(s.scope) ==> fld("stick.scopeStack", "scopes", p) == old(fld("stick.scopeStack", "scopes", p))) && s.out == old(s.out) && (forall w trig :: allocated(w) && w != ref(old(s.out)) ==> rbuflen(w) == old(rbuflen(w)) && rbufdata(w) == old(rbufdata(w))) && (wfail() ==> old(wfail())) && (wafterfail() ==> old(wafterfail()) || old(wfail()))
 
 //@ func stick.(*state).callMacro
 //@   propagates
@@ -473,6 +499,8 @@ package stick
 //@   ensures name: s.name == old(s.name) && s.current == old(s.current) && s.env == old(s.env)
 //@   ensures blocks: len(s.blocks) >= old(len(s.blocks))
 //@   ensures others: forall p trig :: allocated(p) && p != old(s.scope) ==> fld("stick.scopeStack", "scopes", p) == old(fld("stick.scopeStack", "scopes", p))
+// C08/C17: only the current writer receives output
+//@   ensures wframe: forall w trig :: allocated(w) && w != ref(old(s.out)) ==> rbuflen(w) == old(rbuflen(w)) && rbufdata(w) == old(rbufdata(w))
 // A11 (trusted, not proved): states are separate — executing on one state does not modify the list of
 // scope maps of another state's scope stack (ownership of backing arrays is not modelled).
 //@   trusts sep: forall p, i :: allocated(p) && p != old(s.scope) && 0 <= i && i < old(len(fld("stick.scopeStack", "scopes", p))) ==> fld("stick.scopeStack", "scopes", p)[i] == old(fld("stick.scopeStack", "scopes", p)[i])
@@ -494,6 +522,9 @@ package stick
 //@ func stick.(*state).self
 //@ func stick.execute
 //@   propagates
+//@   ensures wfail: wfail() && !old(wfail()) ==> r0 != nil
+//@   ensures order: wafterfail() ==> old(wafterfail()) || old(wfail())
+//@   ensures wframe: forall w trig :: allocated(w) && w != ref(out) ==> rbuflen(w) == old(rbuflen(w)) && rbufdata(w) == old(rbufdata(w))
 //@   requires env != nil && env.Loader != nil && out != nil && cbOK(env)
 // an included template runs in a state of its own: no scope stack that existed before is touched
 //@   ensures others: forall p trig :: allocated(p) ==> fld("stick.scopeStack", "scopes", p) == old(fld("stick.scopeStack", "scopes", p))
@@ -502,6 +533,8 @@ package stick
 //@   propagates
 //@   requires env.Loader != nil
 //@   ensures ok: err == nil ==> r0 != nil && r0.root != nil && len(r0.blocks) >= 1 && r0.macros != nil
+//@   ensures wframe: forall w trig :: allocated(w) ==> rbuflen(w) == old(rbuflen(w)) && rbufdata(w) == old(rbufdata(w))
+//@   ensures wquiet: wfail() == old(wfail()) && wafterfail() == old(wafterfail())
 
 // Context API (called by user callbacks on a running state) and the public entry points: what the caller
 // of the library must provide (assumption on the environment, not proved): a loader, a writer, non-nil callbacks.
@@ -513,12 +546,23 @@ package stick
 //@   requires m.attr != nil
 //@ func stick.(*Env).Execute
 //@   propagates
+//@   ensures wfail: wfail() && !old(wfail()) ==> r0 != nil
+//@   ensures wframe: forall w trig :: allocated(w) && w != ref(out) ==> rbuflen(w) == old(rbuflen(w)) && rbufdata(w) == old(rbufdata(w))
 //@   requires api: env.Loader != nil && out != nil && cbOK(env)
+// ExecuteSafe (C17): all or nothing. The template is rendered into a fresh buffer; only a successful
+// rendering is copied to the destination (a failure can then only come from the destination itself).
 //@ func stick.(*Env).ExecuteSafe
 //@   propagates
+// (wfail is the ghost flag "a write has failed during this call": it starts out false.)
+//@   requires start: !wfail()
+//@   ensures nothing: r0 != nil && !wfail() ==> rbuflen(ref(out)) == old(rbuflen(ref(out)))
+// The destination exists before the call (its identity differs from every object the call allocates).
+//@   requires dest: allocated(ref(out))
+//@   asserts complete: err == nil ==> rbuflen(ref(out)) == old(rbuflen(ref(out))) + buflen(buf) && (forall i trig :: 0 <= i && i < buflen(buf) ==> rbufdata(ref(out))[old(rbuflen(ref(out))) + i] == bufbyte(buf, i))
 //@   requires api: env.Loader != nil && out != nil && cbOK(env)
 //@ func stick.(*Env).Parse
 //@   propagates
 //@   requires api: env.Loader != nil
 //@ func stick.(*Env).Register
 //@   requires api: e != nil
+
